@@ -865,4 +865,41 @@ static void sub_lerpfactor_d (Ctx& c, uint64_t i) { sub_lerpfactor<double> (c, i
 MON_SUB_IDX (sub_lerpfactor_f, "lerpfactor_guard_float", 1000000, 150000000).req (LF_REQ).over ("lerpfactor<float>(m,a,b), operands <= max/4: a==b, tiny/denormal b-a with overflowing and with representable quotient, quotient within 4x of max, |b-a|>1, lattice; result must be finite, 0 when (m-a)/(b-a) overflows, the quotient otherwise");
 MON_SUB_IDX (sub_lerpfactor_d, "lerpfactor_guard_double", 1000000, 150000000).req (LF_REQ).over ("as lerpfactor_guard_float for double");
 
+// ---- equal (T1 a, T2 b, T3 t) with three DIFFERENT argument types: |a - b| <= t evaluated under the usual arithmetic
+// conversions (nothing is narrowed to the first argument's type).  Added after seeded change C17-8 (equal -> iszero<T1>).
+template <class T1, class T2, class T3>
+static void
+sub_equal_mixed (Ctx& c, uint64_t idx)
+{
+    Rng r = c.rng (idx);
+    // values on a 1/8 lattice: every conversion and the subtraction are exact in all participating types
+    auto gen = [&] (bool integral) { return integral ? (double) r.range (-40, 40) : (double) r.range (-320, 320) / 8.0; };
+    double a = gen (std::is_integral<T1>::value), b = gen (std::is_integral<T2>::value);
+    double d = std::fabs (a - b), t;
+    const char* k;
+    switch (idx % 4)
+    {
+        case 0: k = "tolerance_at_difference"; t = d; break;
+        case 1: k = "tolerance_one_step_below"; t = d - 0.125; break;
+        case 2: k = "tolerance_one_step_above"; t = d + 0.125; break;
+        default: k = "tolerance_random"; t = (double) r.range (0, 80) / 8.0; break;
+    }
+    if (std::is_integral<T3>::value) t = std::floor (t);
+    T1 A = (T1) a; T2 B = (T2) b; T3 Tt = (T3) t;
+    c.cls (k);
+    c.cls (std::fabs ((double) A - (double) B) != std::floor (std::fabs ((double) A - (double) B)) ? "fractional_difference" : "integral_difference");
+    c.nontrivial (hmix (hmix (d2u (a), d2u (b) * 3), d2u (t) * 7));
+    c.eval ();
+    bool want = std::fabs ((double) A - (double) B) <= (double) Tt;
+    bool got  = IM::equal (A, B, Tt);
+    if (got != want)
+        c.fail (std::string ("equal.mixed_types:") + k, idx, [&] { return Obj ().kv ("a", (double) A).kv ("b", (double) B).kv ("t", (double) Tt).kv ("got", got).kv ("want", want).str (); });
+}
+#define EQMIX_REQ {"tolerance_at_difference", "tolerance_one_step_below", "tolerance_one_step_above", "tolerance_random", "fractional_difference"}
+MON_SUB_IDX ((sub_equal_mixed<int, double, double>), "equal_mixed_int_double_double", 40000, 4000000).req (EQMIX_REQ).over ("equal(a,b,t) with argument types (int,double,double) on a 1/8 lattice: |a-b| <= t under the usual conversions; tolerance at / one step off the difference");
+MON_SUB_IDX ((sub_equal_mixed<short, float, float>), "equal_mixed_short_float_float", 40000, 4000000).req (EQMIX_REQ).over ("as above, (short,float,float)");
+MON_SUB_IDX ((sub_equal_mixed<int, float, double>), "equal_mixed_int_float_double", 40000, 4000000).req (EQMIX_REQ).over ("as above, (int,float,double)");
+MON_SUB_IDX ((sub_equal_mixed<double, int, float>), "equal_mixed_double_int_float", 40000, 4000000).req (EQMIX_REQ).over ("as above, (double,int,float)");
+MON_SUB_IDX ((sub_equal_mixed<float, double, int>), "equal_mixed_float_double_int", 40000, 4000000).req ({"tolerance_at_difference", "tolerance_random", "fractional_difference"}).over ("as above, (float,double,int): integer tolerance");
+
 MON_MAIN ("c17_utils")
